@@ -536,8 +536,15 @@ func (e *Engine) floatBits(s sv) value {
 	if s.t.Op == "fp.frombits" {
 		return e.fromTerm(s.t.Args[0], k)
 	}
-	// fresh bit-vector b with to_fp(b) = s (NaN payload left free)
+	// fresh bit-vector b with to_fp(b) = s (NaN payload left free); one per term
+	if b, ok := e.fbCache[s.t]; ok {
+		return sv{b, k}
+	}
+	if e.fbCache == nil {
+		e.fbCache = map[*Term]*Term{}
+	}
 	b := e.freshVar("fb", BV(kindWidth(s.k)))
+	e.fbCache[s.t] = b
 	e.addPC(e.tt.Eq(e.tt.FPFromBits(b), s.t))
 	return sv{b, k}
 }
